@@ -272,6 +272,104 @@ def r_listen_loop(ctx: Ctx, rule: str):
         rep.ob(rule, "the reply sent is the content of this session's response buffer", ok, node=w)
 
 
+# ---------------------------------------------------------------------- R17.5
+_REWRITERS = {"lower", "upper", "casefold", "title", "capitalize", "swapcase", "replace", "translate", "removeprefix", "removesuffix"}
+
+
+def r_tokens(ctx: Ctx, rule: str):
+    """What argparse (and through it literal_eval / the dotted-path resolver) receives are the words of the line, unchanged."""
+    rep = ctx.rep
+    cp, sess = anchors(ctx)
+    rep.rule(rule, "TOKENS: every value that can reach parse_args(...) in _parse_command is the received line split at blanks "
+                   "(str.split(' ') / str.split()), optionally filtered; a tokeniser that rewrites the words (shlex.split strips quotes and "
+                   "backslashes, case folding, replace) changes the literal a converter gets, so the command no longer equals the method call")
+    f = sess.methods.get("_parse_command")
+    if f is None:
+        raise AnalysisError("anchor: ControlSession._parse_command missing")
+    parses = ctx.distinct_sites(ctx.nodes(f, lambda n: n.op == "call" and isinstance(n.ast.func, ast.Attribute) and n.ast.func.attr in ("parse_args", "parse_known_args")))
+    rep.floor(rule, "parse_args call in _parse_command", len(parses), 1)
+
+    def judge(fr, env, e, depth=0):
+        """True ok / str violation / None unknown"""
+        e = strip_cast(e)
+        if depth > 6:
+            return None
+        if isinstance(e, ast.Call) and isinstance(e.func, ast.Attribute):
+            if e.func.attr in ("split", "rsplit"):
+                if ctx.an.scope(fr).callee(e).name.endswith("shlex.split"):
+                    return "shlex.split removes quote characters and backslashes from the words: a literal like ['x','y'] reaches the converter as [x,y]"
+                sep = e.args[0] if e.args else next((k.value for k in e.keywords if k.arg == "sep"), None)
+                if len(e.args) > 1 or any(k.arg == "maxsplit" for k in e.keywords):
+                    return "the split is limited (maxsplit): later words stay glued together"
+                if sep is None or (isinstance(sep, ast.Constant) and sep.value in (None, " ")):
+                    return base(fr, env, e.func.value, depth + 1)
+                if isinstance(sep, ast.Constant):
+                    return f"the line is split at {sep.value!r}, not at blanks"
+                return None
+            if e.func.attr == "copy" and not e.args:
+                return judge_all(fr, env, e.func.value, depth + 1)
+        if isinstance(e, ast.Call) and isinstance(e.func, ast.Name) and e.func.id in ("list", "tuple") and len(e.args) == 1:
+            return judge_all(fr, env, e.args[0], depth + 1)
+        if isinstance(e, ast.Call) and ctx.an.scope(fr).callee(e).name.endswith("shlex.split"):
+            return "shlex.split removes quote characters and backslashes from the words: a literal like ['x','y'] reaches the converter as [x,y]"
+        if isinstance(e, (ast.ListComp, ast.GeneratorExp)) and len(e.generators) == 1 and isinstance(e.generators[0].target, ast.Name):
+            v = e.generators[0].target.id
+            elt = strip_cast(e.elt)
+            if isinstance(elt, ast.Name) and elt.id == v:
+                return judge_all(fr, env, e.generators[0].iter, depth + 1)
+            if isinstance(elt, ast.Call) and isinstance(elt.func, ast.Attribute) and isinstance(elt.func.value, ast.Name) and elt.func.value.id == v:
+                if elt.func.attr in ("strip", "lstrip", "rstrip") and not elt.args:
+                    return judge_all(fr, env, e.generators[0].iter, depth + 1)
+                if elt.func.attr in _REWRITERS or elt.func.attr in ("strip", "lstrip", "rstrip"):
+                    return f"each word is rewritten by .{elt.func.attr}(...) before it reaches its converter"
+            return None
+        return None
+
+    def base(fr, env, e, depth):
+        """the string that is split: the line (a parameter / read result), possibly stripped of surrounding blanks"""
+        e = strip_cast(e)
+        if isinstance(e, ast.Call) and isinstance(e.func, ast.Attribute):
+            if e.func.attr in ("strip", "lstrip", "rstrip") and not e.args:
+                return base(fr, env, e.func.value, depth + 1)
+            if e.func.attr in _REWRITERS:
+                return f"the line is rewritten by .{e.func.attr}(...) before it is split"
+            if e.func.attr == "decode":
+                return True  # the bytes as received
+            return None
+        if isinstance(e, ast.Name):
+            ls = ctx.vals.leaves(fr, env, e)
+            if len(ls) == 1 and ls[0][2] is e:
+                return True  # a parameter of the root / an opaque local: the line as received
+            vs = [base(a, b, c, depth + 1) for a, b, c in ls]
+            bad = next((v for v in vs if isinstance(v, str)), None)
+            return bad or (True if all(v is True for v in vs) else None)
+        return None
+
+    def judge_all(fr, env, e, depth=0):
+        ls = ctx.vals.leaves(fr, env, e)
+        vs = [judge(a, b, c, depth) for a, b, c in ls]
+        bad = next((v for v in vs if isinstance(v, str)), None)
+        return bad or (True if vs and all(v is True for v in vs) else None)
+
+    # the line itself: what listen() passes to _parse_command is what was read, decoded and stripped of surrounding blanks
+    sites = [n for fn in sess.methods.values() for n in ctx.distinct_sites(ctx.nodes(fn, lambda n: n.op == "call" and n.inlined is None and ctx.is_call_to(n, "_parse_command")))]
+    rep.floor(rule, "calls of _parse_command", len(sites), 1)
+    for c in sites:
+        a = ctx.call_arg(c.ast, f, "msg") if "msg" in f.param_names() else (c.ast.args[0] if c.ast.args else None)
+        v = base(c.func, c.env, a, 0) if a is not None else None
+        rep.ob(rule, "the line parsed is the line received (decoded, surrounding blanks stripped)", True if v is True else (False if isinstance(v, str) else None), node=c,
+               detail=v if isinstance(v, str) else ("" if v is True else "cannot classify how the line is computed"))
+    for p in parses:
+        call = p.ast
+        arg = call.args[0] if call.args else next((k.value for k in call.keywords if k.arg == "args"), None)
+        if arg is None:
+            rep.ob(rule, "parse_args receives the words of the line", False, node=p, detail="parse_args() without arguments parses sys.argv, not the client's line")
+            continue
+        v = judge_all(p.func, p.env, arg)
+        rep.ob(rule, "the words handed to the parser are the blank-separated words of the line, unchanged", True if v is True else (False if isinstance(v, str) else None),
+               node=p, detail=v if isinstance(v, str) else ("" if v is True else f"cannot classify how `{ast.unparse(arg)[:60]}` is computed"))
+
+
 # ---------------------------------------------------------------------- R18.3
 def r_containment(ctx: Ctx, rule: str):
     rep = ctx.rep
